@@ -58,6 +58,12 @@ def step (cs : CState) (fs : List String) (obs : String) : CState × String × S
       -- the hook moves NotAfter into the past: same as advancing the clock beyond it for this entry
       let c' := { c with notAfter := cs.st.now - 60000 }
       ({ cs with st := { cs.st with cache := cs.st.cache.map (fun x => if x.host = host then c' else x) } }, "expired", "ok")
+  | ["ce", "burst", _kind, k, _seq] =>
+    -- k first requests for k different hosts at once: Props/C11 (issue is a function of the target alone; the
+    -- cache is keyed by host) gives every caller a valid certificate for ITS host in every interleaving
+    (cs, s!"allvalid=1 n={k}",
+      if obs.startsWith "panic" then "bad:panic"
+      else if obs.startsWith "allvalid=1" then "ok" else "bad:concurrent-caller-without-valid-certificate")
   | ["ce", "concurrent", tg, _k, isip] =>
     let target := unhexS tg
     match splitHostPort target with
